@@ -865,6 +865,10 @@ func precompileCtxOK(v ssa.Value, envCtx *types.Var, seen map[ssa.Value]bool) (b
 				}
 				return true, "local derived from env.ctx"
 			}
+			if fvr, ok := x.X.(*ssa.FreeVar); ok {
+				// a variable captured by reference: the cell bound at the closure's creation
+				return precompileCtxOK(fvr, envCtx, seen)
+			}
 			if fv := fieldVar(x.X); fv != nil {
 				return false, "field " + fv.Name()
 			}
